@@ -86,7 +86,13 @@ type Observed struct {
 func buildTask(c *Case, trace string, explicitSingleVariation bool) *task.Task {
 	var cmds []string
 	for k := 1; k <= c.Nc; k++ {
-		cmds = append(cmds, fmt.Sprintf(`echo S >> "$TRACE"; echo "j.${V:-1}.%d" >> "$TRACE"; echo "j.${V:-1}.%d"; echo E >> "$TRACE"; exit ${F%d:-0}`, k, k, k))
+		// (a command is one script: a statement in the middle that ends non-zero - `false;`, a grep that
+		// finds nothing - does not end it; its status is the status of its last statement)
+		mid := ""
+		if k%2 == 0 {
+			mid = " false;"
+		}
+		cmds = append(cmds, fmt.Sprintf(`echo S >> "$TRACE";%s echo "j.${V:-1}.%d" >> "$TRACE"; echo "j.${V:-1}.%d"; echo E >> "$TRACE"; exit ${F%d:-0}`, mid, k, k, k))
 	}
 	t := task.FromCommands(cmds...)
 	t.Name = "t"
@@ -133,6 +139,9 @@ func buildTask(c *Case, trace string, explicitSingleVariation bool) *task.Task {
 		var out []string
 		for i, o := range seq {
 			cmd := fmt.Sprintf(`echo %s.%d >> "$TRACE"; echo %s.%d`, tok, i+1, tok, i+1)
+			if i == 1 {
+				cmd = "false; " + cmd
+			}
 			if o == "fail" {
 				cmd += "; exit 1"
 			}
@@ -469,5 +478,47 @@ func (s *shared) stageLevel(cases []*Case, k int) int {
 			s.rep.Add(core.Finding{Prop: "C06", Key: "C06:stage:order-or-extent-of-commands", What: fmt.Sprintf("as a stage the commands ran %v, model %v", tr, exp), Detail: c})
 		}
 	})
+	// history: ONE task object used by two stages, the second after the first. The first run fails (a
+	// marker file is missing; it creates it) and the stage allows that; the second run succeeds. What a
+	// run reports is about that run: the second stage is Done, the pipeline returns no error, and the
+	// second run's commands all ran.
+	for k := 0; k < 4; k++ {
+		d := s.env.Sub("hist")
+		marker, logf := filepath.Join(d, "marker"), filepath.Join(d, "log")
+		t := task.FromCommands(fmt.Sprintf(`if [ ! -f %s ]; then : > %s; echo first-run-fails >> %s; exit 3; fi`, marker, marker, logf), fmt.Sprintf("echo second-command >> %s", logf))
+		t.Name = "flaky"
+		t.After = []string{fmt.Sprintf("echo after >> %s", logf)}
+		first := &scheduler.Stage{Name: "first", Task: t, AllowFailure: true}
+		second := &scheduler.Stage{Name: "second", Task: t, DependsOn: []string{"first"}}
+		if k%2 == 1 {
+			second.Env = variables.FromMap(map[string]string{"ONLY_SECOND": "1"}) // (a private copy, taken after the first run)
+		}
+		g, err := scheduler.NewExecutionGraph(first, second)
+		if err != nil {
+			core.Broken("graph: %v", err)
+		}
+		r, _ := runner.NewTaskRunner()
+		r.Stdout, r.Stderr = ioutil.Discard, ioutil.Discard
+		sd := scheduler.NewScheduler(r)
+		sd.VerifSetPause(time.Millisecond)
+		done := make(chan error, 1)
+		go func() { done <- sd.Schedule(g) }()
+		var serr error
+		select {
+		case serr = <-done:
+		case <-time.After(20 * time.Second):
+			s.rep.Add(core.Finding{Prop: "C07", Key: "C07:stage:schedule-does-not-return", What: "two stages on one task object did not return", Detail: nil})
+			return int(n)
+		}
+		n++
+		b, _ := ioutil.ReadFile(logf)
+		got := strings.Join(strings.Fields(string(b)), " ")
+		if serr != nil || second.ReadStatus() != scheduler.StatusDone || got != "first-run-fails second-command after" {
+			s.rep.Add(core.Finding{Prop: "C07", Key: "C07:stage:earlier-failure-of-the-task-object-reported-again",
+				What:   fmt.Sprintf("one task object run by two stages (the first run fails and its stage allows it, the second run succeeds): second stage status %d, pipeline error %v, log %q; expected Done, no error, \"first-run-fails second-command after\"", second.ReadStatus(), serr, got),
+				Detail: nil})
+			break
+		}
+	}
 	return int(n)
 }
